@@ -16,6 +16,8 @@ const (
 	ghostSendCount = "sendcount@(Array Int Int)"
 	ghostClosed    = "closed@(Array Int Bool)"
 	ghostRecvCount = "recvcount@(Array Int Int)"
+	// channel the most recent select received from (-1: none / a send or default case)
+	ghostLastSel = "lastsel@Int"
 )
 
 func (e *Enc) ghostGet(st *State, key string) string {
@@ -109,6 +111,57 @@ func (e *Enc) makeSlice(fr *frame, st *State, x *ssa.MakeSlice) Value {
 	res := e.q.define(fr.prefix+x.Name(), sortSlice, fmt.Sprintf("(mk_slice %s 0 %s %s)", ref, ln.term, cp.term))
 	e.q.markOff0(res)
 	return Value{term: res, typ: x.Type()}
+}
+
+// singleVarargs reports whether v is the one-element varargs slice the
+// compiler builds for append(s, x): slice of a fresh [1]T.
+func singleVarargs(v ssa.Value) bool {
+	sl, ok := v.(*ssa.Slice)
+	if !ok || sl.Low != nil || sl.High != nil || sl.Max != nil {
+		return false
+	}
+	al, ok := sl.X.(*ssa.Alloc)
+	if !ok {
+		return false
+	}
+	at, ok := al.Type().Underlying().(*types.Pointer).Elem().Underlying().(*types.Array)
+	return ok && at.Len() == 1
+}
+
+// appendOne models append(s, x) for a single element without quantifiers.
+// The result keeps the offset of s also when a new backing array is taken:
+// the new array is the old one with position off+len overwritten, so the
+// elements before the slice window and between the new length and capacity
+// are those of the old array rather than zero values - an
+// over-approximation (more states than Go allows) outside the window.
+func (e *Enc) appendOne(fr *frame, st *State, s, t Value, rt types.Type, name string) Value {
+	et := rt.Underlying().(*types.Slice).Elem()
+	ek := e.elemKey(et)
+	sl := e.q.define("app_slen", sortInt, "(s_len "+s.term+")")
+	fits := e.q.define("app_fits", sortBool, fmt.Sprintf("(and (<= (+ %s 1) (s_cap %s)) (not (= (s_arr %s) 0)))", sl, s.term, s.term))
+	heapE := st.get(ek)
+	newRef := e.q.define("app_ref", sortInt, st.ap)
+	st.ap = e.q.define("ap", sortInt, "(+ "+st.ap+" 1)")
+	st.assume("(> " + newRef + " 0)")
+	newCap := e.q.fresh("app_cap", sortInt)
+	st.assume("(>= " + newCap + " (+ " + sl + " 1))")
+	arr := e.q.define("app_arr", sortInt, ite(fits, "(s_arr "+s.term+")", newRef))
+	sOff := e.q.offOf(s.term)
+	startT := sl
+	if sOff != "0" {
+		startT = "(+ " + sOff + " " + sl + ")"
+	}
+	src := sel(sel(heapE, "(s_arr "+t.term+")"), e.q.idxOf(t.term, "0"))
+	// a nil slice has no backing array: its (arbitrary) contents must not leak
+	oldTarget := sel(heapE, "(s_arr "+s.term+")")
+	na := e.q.define("app_elems", "(Array Int "+e.u.sortOf(et)+")", store(oldTarget, startT, src))
+	st.set(ek, store(heapE, arr, na))
+	res := fmt.Sprintf("(mk_slice %s %s (+ %s 1) %s)", arr, sOff, sl, ite(fits, "(s_cap "+s.term+")", newCap))
+	out := e.q.define(name, sortSlice, res)
+	if sOff == "0" {
+		e.q.markOff0(out)
+	}
+	return Value{term: out, typ: rt}
 }
 
 // appendOp models append(s, t...).
@@ -519,6 +572,13 @@ func (e *Enc) selectInstr(fr *frame, st *State, x *ssa.Select) Value {
 	st.assume(fmt.Sprintf("(and (<= %s %s) (< %s %d))", lo, idx, idx, n))
 	// sends are offered with the operands as evaluated before the select
 	// blocks: their clauses are checked in the state before other goroutines run
+	// the receive alternatives of this select, for alternative() in send-site clauses
+	e.selActive, e.selNonBlocking, e.selAlts = true, !x.Blocking, nil
+	for _, s := range x.States {
+		if s.Dir != types.SendOnly {
+			e.selAlts = append(e.selAlts, fr.val(st, s.Chan).term)
+		}
+	}
 	for _, s := range x.States {
 		if s.Dir == types.SendOnly {
 			ch := fr.val(st, s.Chan)
@@ -527,11 +587,21 @@ func (e *Enc) selectInstr(fr *frame, st *State, x *ssa.Select) Value {
 			e.recordSend(fr, st, ch, v, "true", s.Pos)
 		}
 	}
+	e.selActive, e.selNonBlocking, e.selAlts = false, false, nil
 	if x.Blocking {
 		e.noteBlocking(fr, "select", x.Pos())
 		e.syncPoint(fr, st, "select")
 	}
 	tuple := []Value{{term: idx, typ: types.Typ[types.Int]}, {term: e.q.fresh("recvok", sortBool), typ: types.Typ[types.Bool]}}
+	if e.contract != nil {
+		lastSel := "(- 1)"
+		for i := len(x.States) - 1; i >= 0; i-- {
+			if x.States[i].Dir != types.SendOnly {
+				lastSel = ite("(= "+idx+" "+fmt.Sprint(i)+")", fr.val(st, x.States[i].Chan).term, lastSel)
+			}
+		}
+		e.ghostSet(st, ghostLastSel, lastSel)
+	}
 	for i, s := range x.States {
 		ch := fr.val(st, s.Chan)
 		if s.Dir == types.SendOnly {
@@ -724,11 +794,25 @@ func (e *Enc) loopHead(fr *frame, b *ssa.BasicBlock, li *loopInfo, st *State, np
 	if e.contract != nil {
 		for _, cc := range e.contract.CallCounts {
 			if loopCalls(li, cc.Callee) {
-				k := callCountKey(cc.Callee)
+				k := cc.key()
 				e.ghostGet(st, k)
 				st.ghost[k] = e.q.fresh("gh_"+k, e.q.ghostSort(k))
 			}
 		}
+	}
+	// receive counts, the last select and the last results of tracked callees
+	// are unknown at the head of a loop that receives, selects or calls them
+	for _, k := range sortedKeys(st.ghost) {
+		switch {
+		case k == ghostRecvCount && loopReceives(li),
+			k == ghostLastSel && loopSelects(li),
+			strings.HasPrefix(k, "lastres_") && loopCalls(li, strings.TrimPrefix(k[:strings.LastIndex(k, "@")], "lastres_")):
+			st.ghost[k] = e.q.fresh("gh_"+k, e.q.ghostSort(k))
+		}
+	}
+	if loopReceives(li) {
+		e.ghostGet(st, ghostRecvCount)
+		st.ghost[ghostRecvCount] = e.q.fresh("gh_"+ghostRecvCount, e.q.ghostSort(ghostRecvCount))
 	}
 	for k := range st.deferFlags {
 		_ = k
@@ -1025,6 +1109,28 @@ func (e *Enc) loopBack(fr *frame, head *ssa.BasicBlock, li *loopInfo, from *ssa.
 func (e *Enc) ownedKeyFilterFor(fr *frame) func(string) bool { return e.ownedKeyFilter() }
 
 // loopCalls: does the loop contain a call of a function with that name?
+func loopReceives(li *loopInfo) bool {
+	for b := range li.blocks {
+		for _, ins := range b.Instrs {
+			if u, ok := ins.(*ssa.UnOp); ok && u.Op == token.ARROW {
+				return true
+			}
+		}
+	}
+	return false
+}
+
+func loopSelects(li *loopInfo) bool {
+	for b := range li.blocks {
+		for _, ins := range b.Instrs {
+			if _, ok := ins.(*ssa.Select); ok {
+				return true
+			}
+		}
+	}
+	return false
+}
+
 func loopCalls(li *loopInfo, callee string) bool {
 	for b := range li.blocks {
 		for _, ins := range b.Instrs {
